@@ -97,14 +97,14 @@ constexpr std::size_t string_size_unsigned(uint64_t x) {
     return digits;
 }
 
+// The absolute value of this integer, as an unsigned type (so that the lowest value works too).
+constexpr uint64_t abs_as_unsigned(int64_t x) {
+    return (x < 0) ? (uint64_t{0} - static_cast<uint64_t>(x)) : static_cast<uint64_t>(x);
+}
+
 // The string-length needed to hold a representation of this integer.
 constexpr std::size_t string_size(int64_t x) {
-    std::size_t sign_length = 0u;
-    if (x < 0) {
-        x = -x;
-        ++sign_length;
-    }
-    return string_size_unsigned(static_cast<uint64_t>(x)) + sign_length;
+    return string_size_unsigned(abs_as_unsigned(x)) + ((x < 0) ? 1u : 0u);
 }
 
 // The sum of the template parameters.
@@ -250,7 +250,7 @@ struct IToA {
 
     static constexpr StringConstant<length> value =
         concatenate(SignIfPositiveIs<(N >= 0)>::value(),
-                    UIToA<static_cast<uint64_t>((N) >= 0) ? N : -N>::value);
+                    UIToA<abs_as_unsigned(N)>::value);
 };
 
 // Definitions for IToA<N>::value.  (Needed to prevent linker errors.)
